@@ -51,10 +51,27 @@ def hashes_of(results, roots) -> Dict[str, Optional[str]]:
     return {n.key: n.metadata.hash for n in results.visit_nodes(roots) if n.metadata is not None and not n.metadata.meta}
 
 
-def write_solution(M, results, roots, repo, path: str, multiline: bool, hashes: bool = False) -> str:
+def urls_of(results, roots) -> Dict[str, Optional[str]]:
+    """the download URL recorded for each pin (what the writer prints with --urls)"""
+    import urllib.parse
+    out: Dict[str, Optional[str]] = {}
+    for n in results.visit_nodes(roots):
+        if n.metadata is None or n.metadata.meta:
+            continue
+        link = getattr(n.metadata.candidate, "link", None) if n.metadata.candidate is not None else None
+        if link is None:
+            out[n.key] = None
+        elif link[0] and urllib.parse.urlsplit(link[0]).scheme:
+            out[n.key] = urllib.parse.urljoin(link[0], link[1])
+        else:
+            out[n.key] = link[1]
+    return out
+
+
+def write_solution(M, results, roots, repo, path: str, multiline: bool, hashes: bool = False, urls: bool = False) -> str:
     import req_compile.cmdline as CL
     buf = io.StringIO()
-    CL.write_requirements_file(results, roots, repo=repo, multiline=multiline, hashes=hashes, write_to=buf)
+    CL.write_requirements_file(results, roots, repo=repo, multiline=multiline, hashes=hashes, urls=urls, write_to=buf)
     text = buf.getvalue()
     with open(path, "w", encoding="utf-8") as fh:
         fh.write(text)
@@ -173,20 +190,22 @@ def build_chain(ctx: Ctx, M, alphabet, tmp: str, idx: int) -> Optional[Dict[str,
         excluded = [rng.choice(sorted(first["emitted"]))]
     ob = rng.choice([None, None, ":all:", rng.sample(sorted(first["emitted"]), 1)])
     with_hashes = rng.random() < 0.5
+    with_urls = rng.random() < 0.5
     if excluded:
         # the released project is named the way a user would type it: any equivalent spelling
         excluded = [rng.choice(solverlib.SPELL.get(x, [x]) + [x.upper()]) for x in excluded]
-    return exec_chain(M, tmp, idx, case, first, variant, new_uni, excluded, inputs, multiline, ob, ctx.count, with_hashes)
+    return exec_chain(M, tmp, idx, case, first, variant, new_uni, excluded, inputs, multiline, ob, ctx.count, with_hashes, with_urls)
 
 
 def exec_chain(M, tmp: str, idx: int, case, first, variant: str, new_uni, excluded: List[str], inputs, multiline: bool, ob,
-               count=lambda *_a: None, with_hashes: bool = False) -> Optional[Dict[str, Any]]:
+               count=lambda *_a: None, with_hashes: bool = False, with_urls: bool = False) -> Optional[Dict[str, Any]]:
     """the deterministic part of a chain: write the first result, load it back, compile again (also used by replays)"""
     CP, C, D, E, R, U = M
     path = os.path.join(tmp, f"sol{idx}.txt")
     try:
-        write_solution(M, first["_results"], first["_roots"], first["_repo"], path, multiline, hashes=with_hashes)
+        write_solution(M, first["_results"], first["_roots"], first["_repo"], path, multiline, hashes=with_hashes, urls=with_urls)
         first_hashes = hashes_of(first["_results"], first["_roots"]) if with_hashes else None
+        first_urls = urls_of(first["_results"], first["_roots"]) if with_urls else None
     except Exception as ex:  # noqa: BLE001
         count("writer-raised:" + type(ex).__name__)
         return None
@@ -218,7 +237,7 @@ def exec_chain(M, tmp: str, idx: int, case, first, variant: str, new_uni, exclud
                    "only_binary": ob}
     second = run_second(second_case, repo2, M)
     second["index_log"] = list(mem2.log)
-    return {"with_hashes": with_hashes, "first_hashes": first_hashes,
+    return {"with_hashes": with_hashes, "first_hashes": first_hashes, "with_urls": with_urls, "first_urls": first_urls,
             "variant": variant, "case": case, "first": first, "second_case": second_case, "second": second,
             "excluded": excluded, "multiline": multiline, "loader_diff": loader_diff,
             "loaded": canon_universe(su_loaded) if loader_diff else None, "new_universe": new_uni}
@@ -234,15 +253,14 @@ def rerun_chain(ctx: Ctx, d: Dict[str, Any]) -> Optional[Dict[str, Any]]:
         if first["kind"] != "OK":
             return None
         return exec_chain(M, tmp, 999, d["case"], first, d["variant"], d["new_universe"], d["excluded"], d["second_inputs"],
-                          d["multiline"], d.get("only_binary"), with_hashes=bool(d.get("with_hashes")))
+                          d["multiline"], d.get("only_binary"), with_hashes=bool(d.get("with_hashes")), with_urls=bool(d.get("with_urls")))
     return solverlib.in_big_thread(work)
 
 
 def run_second(case: Dict[str, Any], repo, M) -> Dict[str, Any]:
     """like solverlib.run_impl but on a given repository object"""
     CP, C, D, E, R, U = M
-    mk = lambda name, reqs: C.DistInfo(name, None, [U.parse_requirement(r) for r in reqs], meta=True)
-    inputs = [mk(n, r) for (n, r) in case["inputs"]]
+    inputs = [solverlib.input_dist(C, U, case, n, r) for (n, r) in case["inputs"]]
     import contextlib
     buf = io.StringIO()
     try:
@@ -254,6 +272,7 @@ def run_second(case: Dict[str, Any], repo, M) -> Dict[str, Any]:
         emitted = [n for n in results.visit_nodes(roots) if n.metadata is not None and not n.metadata.meta]
         out["emitted"] = sorted(n.key for n in emitted)
         out["hashes"] = hashes_of(results, roots)
+        out["urls"] = urls_of(results, roots)
         out["explain"] = {}
         for n in emitted:
             try:
@@ -302,18 +321,22 @@ def chain_violation(ch: Dict[str, Any]) -> Optional[str]:
             return f"pins changed although inputs are unchanged: {diff}"
         if second.get("index_log"):
             return f"other repositories were contacted for {sorted(set(second['index_log']))}"
-        w = hash_violation(ch, p1)
+        w = hash_violation(ch, p1) or url_violation(ch, p1)
         if w:
             return w
     elif variant == "v2-subset-solution-only":
-        root_keys = [graphenc_key(n) for (n, _) in ch["second_case"]["inputs"]]
-        want_keys = reach_from(first, root_keys)
-        want = {k: v for k, v in p1.items() if k in want_keys}
+        # the sub-closure of the subset: what its own requirements (with the extras THEY request) reach through the
+        # pinned distributions' requirements - not what the full solve reached through extras other inputs asked for
+        nodes1 = {n["key"]: n for n in first["graph"]}
+        pins_nv = {k: (nodes1[k]["meta"][0], v) for k, v in p1.items()}
+        req_extras, _missing = SO.closure({"universe": ch["case"]["universe"], "inputs": ch["second_case"]["inputs"], "constraints": None},
+                                          pins_nv, from_inputs_only=True)
+        want = {k: v for k, v in p1.items() if k in req_extras}
         if second["kind"] != "OK":
             return f"a subset of the original inputs does not compile against the solution alone ({second['kind']})"
         if pins_of(second) != want:
             return f"sub-closure differs: expected {want}, got {pins_of(second)}"
-        w = hash_violation(ch, want)
+        w = hash_violation(ch, want) or url_violation(ch, want)
         if w:
             return w
     elif variant == "v3-release-one":
@@ -328,6 +351,11 @@ def chain_violation(ch: Dict[str, Any]) -> Optional[str]:
             return None     # the released project may legitimately have no acceptable newer version
         p2 = pins_of(second)
         rel = {graphenc_key(x) for x in ch["excluded"]}
+        # the result of a release is a consistent solution for the index's own metadata: every pin inside every
+        # requirement of every pinned distribution (a range lost on the way through the solution file shows up here)
+        w01 = SO.c01({"universe": ch["new_universe"], "inputs": ch["second_case"]["inputs"], "constraints": None}, second)
+        if w01:
+            return f"after releasing {ch['excluded']}: {w01}"
         # a released project is decided by the other repositories, not by the solution: they must have been asked for it
         for k in sorted(rel):
             if k in p2 and k not in set(second.get("index_log") or []):
@@ -375,6 +403,17 @@ def hash_violation(ch: Dict[str, Any], same_pins: Dict[str, str]) -> Optional[st
     for k in sorted(same_pins):
         if ch["first_hashes"].get(k) and h2.get(k) != ch["first_hashes"][k]:
             return f"hash of {k}=={same_pins[k]} is {h2.get(k)} after feeding the solution back, it was {ch['first_hashes'][k]}"
+    return None
+
+
+def url_violation(ch: Dict[str, Any], same_pins: Dict[str, str]) -> Optional[str]:
+    """same pins => same URLs, when the solution was written with URLs"""
+    if not ch.get("with_urls") or not ch.get("first_urls"):
+        return None
+    u2 = ch["second"].get("urls") or {}
+    for k in sorted(same_pins):
+        if ch["first_urls"].get(k) and u2.get(k) != ch["first_urls"][k]:
+            return f"URL of {k}=={same_pins[k]} is {u2.get(k)} after feeding the solution back, it was {ch['first_urls'][k]}"
     return None
 
 
@@ -446,7 +485,7 @@ def correspondence(ctx: Ctx) -> None:
 
 def _brief_chain(ch: Dict[str, Any]) -> Dict[str, Any]:
     return {"variant": ch["variant"], "case": solver_case(ch["case"]), "second_inputs": ch["second_case"]["inputs"],
-            "excluded": ch["excluded"], "multiline": ch["multiline"], "with_hashes": ch.get("with_hashes", False), "stack": ch["second_case"]["stack"],
+            "excluded": ch["excluded"], "multiline": ch["multiline"], "with_hashes": ch.get("with_hashes", False), "with_urls": ch.get("with_urls", False), "stack": ch["second_case"]["stack"],
             "only_binary": ch["second_case"].get("only_binary"), "new_universe": ch.get("new_universe")}
 
 
@@ -465,7 +504,8 @@ def new_violation(ch: Dict[str, Any]) -> Optional[str]:
         return None
     shadow = dict(ch)
     shadow["second"] = dict(m)
-    shadow["second"]["hashes"] = dict(ch.get("first_hashes") or {})     # the model carries no hashes: a pin's hash is a function of the pin
+    shadow["second"]["hashes"] = dict(ch.get("first_hashes") or {})
+    shadow["second"]["urls"] = dict(ch.get("first_urls") or {})     # the model carries no hashes: a pin's hash is a function of the pin
     shadow["second"]["index_log"] = [] if solverlib.canon(m) == solverlib.canon(ch["second"]) and not ch["second"].get("index_log") else ch["second"].get("index_log")
     return None if chain_violation(shadow) else w
 
